@@ -98,6 +98,8 @@ fn has_float(j: &J) -> bool {
 }
 
 pub fn check(ctx: &mut Ctx) {
+    // limit after a sort sees the sorted order — with the cut inside a group of tied keys
+    super::c09::check_sort_then_limit(ctx, "sort-then-limit");
     check_live_reapplication(ctx);
     let n = ctx.budget(2000, 80000);
     for _ in 0..n {
